@@ -1,12 +1,55 @@
 EXTEND = {
-    "harness": [("harness-agg", "c06b")],
+    "harness": [("harness-agg", "c06b"), ("harness-client", "c06c"), ("harness-signer", "c06s")],
     "theorems": [
+        # node level: SignerBuilder::new as the three nodes call it
         "C06.C06_node_perm", "C06.C06_node_key", "C06.C06_node_outcome", "C06.C06_dup_party_note",
+        "C06.C06_signer_perm", "C06.C06_signer_is_build",
+        # the aggregator's epoch service
         "C06.C06_service_invariant", "C06.C06_service_coherent", "C06.C06_service_ok_coherent",
         "C06.C06_service_lists_honest", "C06.C06_service_function_of_set",
         "C06.C06_service_failed_update_counterexample", "C06.C06_service_stale_snapshot_counterexample",
-        "RegPaths.build_perm", "RegPaths.build_eq", "RegService.run_inv", "RegService.run_coherent",
+        "RegPaths.build_perm", "RegPaths.build_eq", "RegPaths.build_key", "RegPaths.signerPath_perm",
+        "RegPaths.associate_perm", "RegService.run_inv", "RegService.run_coherent", "RegService.step_ok_coherent",
+        "RegService.run_dataWF", "RegService.keys_function_of_set", "RegService.updateNext_keeps_snapshot",
     ],
     "anchors": ["mithril-aggregator/src/services/epoch_service.rs", "mithril-signer/src/services/single_signer.rs",
-                "mithril-client/src/message.rs"],
+                "mithril-signer/src/services/epoch_service.rs", "mithril-client/src/message.rs",
+                "mithril-aggregator/src/database/repository/signer_registration_store.rs"],
+    "rule": "c06b: case = one history (6-14 ops after the initial registrations; 8-22 thorough) over 5 parties / 8 real BLS keys / "
+            "epochs around e: store writes (own key, second key, another party's key; stakes 0, 5, 1..40, 2^62; one history in ten "
+            "with totals at and beyond 2^64), prunes, inform_epoch(e / e+1 / 0 / repeated), update_next_signers_with_stake, "
+            "precompute_epoch_data; 110 (700) histories, every step observed. c06c: 44 (220) sets of 1..10 KES-certified signers x "
+            "{as built, reversed, by party, by stake, 3 (6) shuffles} x {direct, JSON text, JSON value} + empty list, signer listed "
+            "twice, party id not the pool, two party ids swapped, total zero, total overflow, one signer less, one stake changed. "
+            "c06s: 28 (120) sets of 2..8 certified signers with real protocol initializers, one being the node, announced in 5 (7) "
+            "orders directly or through the JSON of EpochSettingsMessage, + listed signer without stake, node not listed, node's "
+            "stake changed, signer listed twice, others at 2^63-1 (overflow), others zero, empty list; all non-trivial.",
+    "level_text": "LAYERS (aggregator epoch service, client, signer). The node-level builder SignerBuilder::new is modelled with its "
+                  "stake map (last entry of a party wins), its registration loop (unknown party, repeated key) and the core close: "
+                  "on honest lists (distinct parties, own identity) its outcome - error class or closed registration, every slot, "
+                  "total, key - is proved order independent and equal to the core model's key of the listed pairs; the signer node's "
+                  "path (stakes from its own store) is proved order independent and equal to the same function when the stores "
+                  "agree. The aggregator's MithrilEpochService is a state machine over the registration store (insert-or-replace, "
+                  "prune, inform_epoch with the real offsets e-1 / e, update_next_signers_with_stake, precompute_epoch_data, the "
+                  "computed cache): for EVERY operation sequence the cached current key / multi-signer is the one of "
+                  "current_signers_with_stake(); the cached next one is the one of next_signers_with_stake() unless the last update "
+                  "failed to build (a proved counter-example, known finding); after every successful call the cache is coherent; two "
+                  "services reached by any two histories reporting permutations of the same list hold the same keys, slots and "
+                  "totals. K compares, after every step of every history, the real service over the real sqlite stores with the "
+                  "model: both signer lists in store order, next_signers, both totals, both keys bit for bit (Lean Blake2b), and the "
+                  "slot of every signer in both multi-signers (probed with real single signatures); for the client the literal "
+                  "NextAggregateVerificationKey message part; for the signer the signer_index and the key its signature verifies "
+                  "under.",
+    "level_note": "Slots of the service's multi-signers are observable only through verify_single_signature: the harness offers a real "
+                  "signature (raw mithril-stm over the reported list) under every index; when the multi-signer is not the one of the "
+                  "reported list nothing verifies and both sides print x. The protocol parameters are the same for all epochs of a "
+                  "history (the key does not depend on them; that the multi-signer carries the epoch's parameters is not observed). "
+                  "inform_epoch sums stakes with overflow checks on (dev profile): a total >= 2^64 is the outcome panic; a release "
+                  "build wraps instead. KES / proof-of-possession verdicts are C07's subject: only verifying material is passed.",
+    "trusted_base": ["harness bins c06b (aggregator DependenciesBuilder, sqlite), c06c, c06s; mithril-common test fixtures (KES key "
+                     "material); raw mithril-stm as reference of the S checks"],
+    "assumptions": ["dev-profile overflow checks (inform_epoch's stake totals)",
+                    "stakes below 2^63 in the sqlite stores (a larger stake panics in the signer's stake store: not a value a chain can produce)"],
+    "goals_not_proved": ["C06_service_coherent_goal (cache coherence without side condition): false for the code as it is, "
+                         "counter-example proved (known finding C06-stale-after-failed-update)"],
 }
